@@ -2,7 +2,7 @@
 """Writes seeded/SUMMARY.md from seeded/*/meta.json (independently seeded changes and whether our checks caught them)."""
 import json, glob, os
 ROOT = os.path.dirname(os.path.dirname(os.path.abspath(__file__)))
-rows = []
+kept, dropped = [], []
 for p in sorted(glob.glob(os.path.join(ROOT, 'seeded', '*', 'meta.json'))):
     m = json.load(open(p))
     d = os.path.basename(os.path.dirname(p))
@@ -10,14 +10,20 @@ for p in sorted(glob.glob(os.path.join(ROOT, 'seeded', '*', 'meta.json'))):
     o = m.get('our_check', {})
     ok = (c.get('demo_without_patch_exit') == 0 and c.get('demo_with_patch_exit') not in (0, None)
           and c.get('existing_suite_with_patch') == 'pass')
-    rows.append((d, m.get('property'), ', '.join(m.get('files_changed', [])), (m.get('needs_to_manifest') or '')[:160].replace('\n', ' '),
-                 'yes' if ok else 'NO (%s)' % c, 'caught' if o.get('caught') else 'MISSED'))
+    row = (d, m.get('property'), ', '.join(m.get('files_changed', [])), (m.get('needs_to_manifest') or '')[:200].replace('\n', ' ').replace('|', '/'),
+           'caught' if o.get('caught') else 'MISSED', m.get('strengthened', ''))
+    (kept if ok else dropped).append((row, c))
 with open(os.path.join(ROOT, 'seeded', 'SUMMARY.md'), 'w') as fh:
     fh.write('# Independently seeded changes\n\nProduced by sub-agents that were given only the property text and a scratch worktree; confirmed by '
-             'tools/seed_confirm.sh (demo passes on the unchanged code, fails with the patch; the existing test suite passes with the patch); '
-             'then run against our check in isolation (tools/mutant.sh).\n\n')
-    fh.write('| id | property | files changed | needs to manifest | confirmed | our check |\n|---|---|---|---|---|---|\n')
-    for r in rows:
+             'tools/seed_confirm.sh (demo passes on the unchanged code, fails with the patch; the existing test suite passes with the patch — a '
+             'load-sensitive test that fails once is re-run alone five times); then run against our check in isolation (tools/mutant.sh).\n\n')
+    fh.write('| id | property | files changed | needs to manifest | our check | note |\n|---|---|---|---|---|---|\n')
+    for r, _ in kept:
         fh.write('| %s | %s | %s | %s | %s | %s |\n' % r)
-    fh.write('\n%d changes, %d caught.\n' % (len(rows), sum(1 for r in rows if r[5] == 'caught')))
-print('%d seeded changes, %d caught' % (len(rows), sum(1 for r in rows if r[5] == 'caught')))
+    fh.write('\n%d kept changes, %d caught by the check as it was when the change arrived (a MISSED entry with a note was caught after the '
+             'check was strengthened; see the note).\n' % (len(kept), sum(1 for r, _ in kept if r[4] == 'caught')))
+    if dropped:
+        fh.write('\n## Not kept (confirmation failed)\n\n')
+        for r, c in dropped:
+            fh.write('* %s (%s): %s — our check: %s\n' % (r[0], r[1], json.dumps(c), r[4]))
+print('%d kept, %d caught, %d not kept' % (len(kept), sum(1 for r, _ in kept if r[4] == 'caught'), len(dropped)))
